@@ -6,22 +6,18 @@
 // the meter is created and sets the readings it wants the fallbacks to see.
 package util
 
-// VerifFreeze stops the meter's goroutines (as Stop does). Must be called once, before any traffic.
+// VerifFreeze stops the meter's goroutines (as Stop does) and then keeps m.mu locked for ever: a goroutine that has
+// not seen the stop yet and picks up an in-flight sample or a tick instead blocks in calInflight / latestRate
+// (the only places that write the readings, all under m.mu) and can never overwrite what VerifSet stored.
+// Must be called once per meter.
 func (m *Meter) VerifFreeze() {
+	close(m.stopCh)
 	m.mu.Lock()
-	defer m.mu.Unlock()
-	select {
-	case <-m.stopCh:
-	default:
-		close(m.stopCh)
-	}
 }
 
-// VerifSet sets what MaxInflight() and Rate() return. Every bucket is set too, so that a worker goroutine that
-// has not seen the stop yet recomputes the same maximum.
+// VerifSet sets what MaxInflight() and Rate() return (plain fields read without the lock by the real code).
+// The caller holds m.mu since VerifFreeze.
 func (m *Meter) VerifSet(maxInflight int32, rate float64) {
-	m.mu.Lock()
-	defer m.mu.Unlock()
 	for i := range m.inflightBuckets {
 		m.inflightBuckets[i] = maxInflight
 	}
